@@ -260,7 +260,10 @@ def explore(prop, tier, seed, only_policies=None, only_layers=None, budget_s=Non
         for li, layer in enumerate(layers):
             pols = layer.policies if layer.policies is not None else default_pol
             if only_policies:
-                pols = [p for p in pols if p in only_policies] or list(only_policies)
+                # exact policy names, or order names (the part before '@') such as "natural"
+                pols = [p for p in pols if p in only_policies or p.partition("@")[0] in only_policies]
+                if not pols:
+                    continue
             for chunk in _chunks(layer.gen(), prop.CHUNK):
                 sem.acquire()
                 if stop:
